@@ -58,3 +58,6 @@ M("fields-nit-not-restored", "main.py", "    if checkpoint is not None:\n       
 M("fields-f0-recomputed", "main.py", "    if checkpoint is None:\n        f0 = sf.fun(x)\n    else:\n        f0 = checkpoint.fun\n", "    f0 = sf.fun(x)\n", ["FIELDS"])
 M("fields-result-lacks-nit", "main.py", "        nit=istate.nit,\n        status=istate.warnflag,\n        message=istate.task_str,\n        x=x,\n        success=istate.is_success,\n        hess_inv=LbfgsInvHessProduct(\n            np.atleast_2d(",
   "        status=istate.warnflag,\n        message=istate.task_str,\n        x=x,\n        success=istate.is_success,\n        hess_inv=LbfgsInvHessProduct(\n            np.atleast_2d(", ["FIELDS", "RET"])
+
+M("sib-early-exit-hands-on-checkpoint-operator", "main.py", "                hess_inv=LbfgsInvHessProduct(\n                    checkpoint.hess_inv.sk[-maxcor:], checkpoint.hess_inv.yk[-maxcor:]\n                ),\n",
+  "                hess_inv=checkpoint.hess_inv,\n", ["SIB"], note="seeded change C18-b: more than maxcor pairs handed on")
